@@ -1,4 +1,5 @@
 from dataclasses import dataclass, field
+from ..SignalProcessing.periodic_functions import periodic_function
 
 @dataclass(frozen=True)
 class Component:
@@ -98,6 +99,7 @@ def periodic_voltage_source(id: str, nodes: tuple[str, str], wavetype: str, V: f
         raise ValueError('R must be greater than zero.')
     if w < 0:
         raise ValueError('w must be greater than zero.')
+    periodic_function(wavetype)
     return Component(
         type='periodic_voltage_source',
         id=id,
@@ -144,6 +146,7 @@ def periodic_current_source(id: str, nodes: tuple[str, str], wavetype: str, I: f
         raise ValueError('G must be greater than zero.')
     if w < 0:
         raise ValueError('w must be greater than zero.')
+    periodic_function(wavetype)
     return Component(
         type='periodic_current_source',
         id=id,
